@@ -7,7 +7,12 @@
     (if any) is such a sub-list attaining it.
   * `MaxWelfare.primalDual_*`: the allocation returned by `max_additive_utilitarian_welfare_primal_dual_scheme`
     is feasible, extends the initial allocation, has no duplicates, and its welfare equals the brute-force
-    optimum `optValue` over all feasible allocations extending the initial one.
+    optimum `optValue` over all feasible allocations extending the initial one — for ALL real profits: total
+    satisfactions may be negative (cardinal ballots with negative scores).  Only projects of positive cost and
+    non-negative profit are handed to the knapsack; `dropNegative` is why that loses nothing: dropping the
+    projects of negative profit from a feasible extension keeps it feasible (costs ≥ 0) and does not lower
+    its welfare.  (The first version of these theorems carried the hypothesis `∀ p, 0 ≤ profit p`; the code was
+    wrong exactly where it failed — defect D45, `PabuProofs/Mutants/C04.lean`.)
 
   The supporting lemmas (`bound`, `pd_mono`, `pd_complete`, `pd_sound`, split index facts, sorting, the
   index <-> project transfer) are in `PabuProofs/Lemmas/Knapsack.lean` and `PabuProofs/Lemmas/KnapsackLift.lean`.
@@ -78,10 +83,10 @@ variable (I : Inst) (profit : Pid → Rat) (init enum : List Pid)
 
 /-- C01 for this rule: the returned allocation respects the budget limit. -/
 theorem primalDual_feasible
-    (hcost : ∀ p ∈ I.projects, 0 ≤ I.cost p) (hprofit : ∀ p ∈ I.projects, 0 ≤ profit p)
+    (hcost : ∀ p ∈ I.projects, 0 ≤ I.cost p)
     (hinit : I.isFeasible init = true) (hperm : enum.Perm I.projects) (hnd : enum.Nodup) :
     I.isFeasible (primalDual I profit init enum) = true :=
-  PDHyp.feasible ⟨hcost, hprofit, hinit, hperm, hnd⟩
+  PDHyp.feasible ⟨hcost, hinit, hperm, hnd⟩
 
 /-- The returned allocation starts with the initial allocation (unconditionally). -/
 theorem primalDual_contains_init : init <+: primalDual I profit init enum :=
@@ -89,28 +94,43 @@ theorem primalDual_contains_init : init <+: primalDual I profit init enum :=
 
 /-- The returned allocation has no duplicates if the initial one has none. -/
 theorem primalDual_nodup
-    (hcost : ∀ p ∈ I.projects, 0 ≤ I.cost p) (hprofit : ∀ p ∈ I.projects, 0 ≤ profit p)
+    (hcost : ∀ p ∈ I.projects, 0 ≤ I.cost p)
     (hinit : I.isFeasible init = true) (hperm : enum.Perm I.projects) (hnd : enum.Nodup)
     (hinitnd : init.Nodup) :
     (primalDual I profit init enum).Nodup :=
-  PDHyp.nodup ⟨hcost, hprofit, hinit, hperm, hnd⟩ hinitnd
+  PDHyp.nodup ⟨hcost, hinit, hperm, hnd⟩ hinitnd
+
+/-- Projects of negative profit are never needed: from a feasible extension `init ++ s` of the initial
+    allocation, dropping the projects of negative profit gives again a candidate extension that is feasible,
+    contains only projects of non-negative profit and has at least the same welfare.  (Costs ≥ 0 is needed:
+    with a negative cost, dropping a project could break the budget.) -/
+theorem dropNegative
+    (hcost : ∀ p ∈ I.projects, 0 ≤ I.cost p)
+    (hinit : I.isFeasible init = true) (hperm : enum.Perm I.projects) (hnd : enum.Nodup)
+    (s : List Pid) (hs : s ∈ sublists (I.projects.filter (fun p => !init.contains p)))
+    (hf : I.isFeasible (init ++ s) = true) :
+    s.filter (fun p => decide (0 ≤ profit p)) ∈ sublists (I.projects.filter (fun p => !init.contains p)) ∧
+    (∀ x ∈ s.filter (fun p => decide (0 ≤ profit p)), 0 ≤ profit x) ∧
+    I.isFeasible (init ++ s.filter (fun p => decide (0 ≤ profit p))) = true ∧
+    sumOver s profit ≤ sumOver (s.filter (fun p => decide (0 ≤ profit p))) profit :=
+  PDHyp.dropNeg (profit := profit) ⟨hcost, hinit, hperm, hnd⟩ hs hf
 
 /-- Optimality: the welfare of the returned allocation equals the maximum of the welfare over all feasible
     allocations `init ++ s`, `s` a sub-list of the projects outside `init`. -/
 theorem primalDual_optimal
-    (hcost : ∀ p ∈ I.projects, 0 ≤ I.cost p) (hprofit : ∀ p ∈ I.projects, 0 ≤ profit p)
+    (hcost : ∀ p ∈ I.projects, 0 ≤ I.cost p)
     (hinit : I.isFeasible init = true) (hperm : enum.Perm I.projects) (hnd : enum.Nodup) :
     sumOver (primalDual I profit init enum) profit = optValue I profit init :=
-  PDHyp.optimal ⟨hcost, hprofit, hinit, hperm, hnd⟩
+  PDHyp.optimal ⟨hcost, hinit, hperm, hnd⟩
 
 /-- ... spelled out without `optValue`: every feasible extension of `init` has at most that welfare. -/
 theorem primalDual_dominates
-    (hcost : ∀ p ∈ I.projects, 0 ≤ I.cost p) (hprofit : ∀ p ∈ I.projects, 0 ≤ profit p)
+    (hcost : ∀ p ∈ I.projects, 0 ≤ I.cost p)
     (hinit : I.isFeasible init = true) (hperm : enum.Perm I.projects) (hnd : enum.Nodup)
     (s : List Pid) (hs : s ∈ sublists (I.projects.filter (fun p => !init.contains p)))
     (hf : I.isFeasible (init ++ s) = true) :
     sumOver (init ++ s) profit ≤ sumOver (primalDual I profit init enum) profit := by
-  have H : PDHyp I profit init enum := ⟨hcost, hprofit, hinit, hperm, hnd⟩
+  have H : PDHyp I profit init enum := ⟨hcost, hinit, hperm, hnd⟩
   rw [H.value, sumOver_append]
   have := H.upper hs hf
   linarith
@@ -118,10 +138,10 @@ theorem primalDual_dominates
 /-- The returned allocation is, up to the order of its elements, one of the welfare-maximal feasible
     allocations enumerated by the irresolute specification `allOptima`. -/
 theorem primalDual_in_allOptima
-    (hcost : ∀ p ∈ I.projects, 0 ≤ I.cost p) (hprofit : ∀ p ∈ I.projects, 0 ≤ profit p)
+    (hcost : ∀ p ∈ I.projects, 0 ≤ I.cost p)
     (hinit : I.isFeasible init = true) (hperm : enum.Perm I.projects) (hnd : enum.Nodup) :
     ∃ a ∈ allOptima I profit init, a.Perm (primalDual I profit init enum) := by
-  have H : PDHyp I profit init enum := ⟨hcost, hprofit, hinit, hperm, hnd⟩
+  have H : PDHyp I profit init enum := ⟨hcost, hinit, hperm, hnd⟩
   refine ⟨init ++ pdAdded I profit init enum, ?_, H.added_perm⟩
   unfold allOptima
   refine List.mem_filter.mpr ⟨List.mem_filter.mpr ⟨?_, ?_⟩, ?_⟩
@@ -132,21 +152,21 @@ theorem primalDual_in_allOptima
   · apply decide_eq_true
     rw [sumOver_perm H.added_perm profit]; exact H.optimal
 
-/-! non-vacuity: 5 projects (one zero-cost with positive profit, one zero-cost with zero profit),
-    fractional cost and profit, a non-empty feasible initial allocation, a non-identity enumeration -/
+/-! non-vacuity: 6 projects (one zero-cost with positive profit, one zero-cost with zero profit, one of
+    positive cost with NEGATIVE profit, one zero-cost with negative profit), fractional cost and profit,
+    a non-empty feasible initial allocation, a non-identity enumeration -/
 example : ∃ (I : Inst) (profit : Pid → Rat) (init enum : List Pid),
-    (∀ p ∈ I.projects, 0 ≤ I.cost p) ∧ (∀ p ∈ I.projects, 0 ≤ profit p) ∧
+    (∀ p ∈ I.projects, 0 ≤ I.cost p) ∧ (∃ p ∈ I.projects, profit p < 0 ∧ 0 < I.cost p) ∧
+    (∃ p ∈ I.projects, profit p < 0 ∧ I.cost p = 0) ∧
     I.isFeasible init = true ∧ enum.Perm I.projects ∧ enum.Nodup ∧ init.Nodup ∧
     init ≠ [] ∧ enum ≠ I.projects := by
-  refine ⟨⟨[0, 1, 2, 3, 4], fun p => match p with | 0 => 0 | 1 => 5/2 | 2 => 3 | 3 => 0 | _ => 4, 7⟩,
-    fun p => match p with | 0 => 2 | 1 => 7/3 | 2 => 4 | 3 => 0 | _ => 1, [2], [3, 1, 4, 0, 2], ?_⟩
-  refine ⟨?_, ?_, ?_, by decide, by decide, by decide, by decide, by decide⟩
+  refine ⟨⟨[0, 1, 2, 3, 4, 5], fun p => match p with | 0 => 0 | 1 => 5/2 | 2 => 3 | 3 => 0 | 4 => 4 | _ => 0, 7⟩,
+    fun p => match p with | 0 => 2 | 1 => 7/3 | 2 => 4 | 3 => 0 | 4 => -3/2 | _ => -1, [2], [3, 1, 5, 4, 0, 2], ?_⟩
+  refine ⟨?_, ⟨4, by decide, by norm_num, by norm_num⟩, ⟨5, by decide, by norm_num, by norm_num⟩, ?_,
+    by decide, by decide, by decide, by decide, by decide⟩
   · intro p hp
     simp only [List.mem_cons, List.not_mem_nil, or_false] at hp
-    rcases hp with rfl | rfl | rfl | rfl | rfl <;> norm_num
-  · intro p hp
-    simp only [List.mem_cons, List.not_mem_nil, or_false] at hp
-    rcases hp with rfl | rfl | rfl | rfl | rfl <;> norm_num
+    rcases hp with rfl | rfl | rfl | rfl | rfl | rfl <;> norm_num
   · simp [Inst.isFeasible, Inst.totalCost, costOf, sumOver]; norm_num
 
 end MaxWelfare
